@@ -84,6 +84,61 @@ Proof.
   rewrite E1. nra.
 Qed.
 
+(* PROGRESS of the repaired fallback (derivative too small): the next abscissa is the secant point if it lies in the
+   inner 80 % of the bracket and the midpoint otherwise, so whichever end is replaced, the new bracket is at most
+   90 % as wide as the old one (50 % for the midpoint) - regula falsi can no longer stall *)
+Theorem fallback_progress mi fuel ni x xh xl y yh yl yp :
+  xl <= xh -> tol < Rabs y -> yl * yh < 0 -> Z.geb ni mi = false ->
+  Interpolation_derivative Rops self (VFloat x) = VFloat (D x) -> Rabs (D x) < Rlit 1 (-3) ->
+  exists xn, (xl + Rlit 1 (-1) * (xh - xl) <= xn <= xh - Rlit 1 (-1) * (xh - xl)) /\
+    (Interpolation___call__ Rops self (VFloat xn) = VErr ValueError ->
+       root_loop self (VInt mi) (S fuel) (VInt ni) (VFloat x) (VFloat xh) (VFloat xl)
+                      (VFloat y) (VFloat yh) (VFloat yl) yp = VErr ValueError) /\
+    (Interpolation___call__ Rops self (VFloat xn) = VFloat (I xn) ->
+       exists xl' xh' yl' yh',
+         root_loop self (VInt mi) (S fuel) (VInt ni) (VFloat x) (VFloat xh) (VFloat xl)
+                      (VFloat y) (VFloat yh) (VFloat yl) yp
+         = root_loop self (VInt mi) fuel (VInt (ni + 1)) (VFloat xn) (VFloat xh') (VFloat xl')
+                     (VFloat (I xn)) (VFloat yh') (VFloat yl') (VFloat (D x))
+         /\ xl <= xl' /\ xh' <= xh /\ xl' <= xh' /\ xh' - xl' <= (1 - Rlit 1 (-1)) * (xh - xl)).
+Proof.
+  intros Hlh Hgt Hs Hge Hd Hflat.
+  assert (Hsg : (yl < 0 /\ 0 < yh) \/ (0 < yl /\ yh < 0)).
+  { destruct (Req_dec yl 0) as [E0 | N0]; [rewrite E0 in Hs; lra |].
+    destruct (Rlt_dec yl 0); [left | right]; split; try lra; nra. }
+  pose proof (secant_inside xl xh yl yh Hlh Hs) as Hsec.
+  set (xs := (xl * yh - xh * yl) / (yh - yl)) in *.
+  set (xm := (xl + xh) / Rlit 20 (-1)) in *.
+  assert (Hin_xm : xl + Rlit 1 (-1) * (xh - xl) <= xm <= xh - Rlit 1 (-1) * (xh - xl)) by (unfold xm; Rlit_norm; lra).
+  destruct (Rlt_dec xs (xl + Rlit 1 (-1) * (xh - xl))) as [Hlo1 | Hlo1].
+  { exists xm. split; [exact Hin_xm|]. split.
+      - intro Hc. destruct Hsg as [[? ?] | [? ?]]; unfold xs, xm in *; drive; reflexivity.
+      - intro Hc. destruct (Rle_dec 0 (I xm * yl)) as [Hp | Hn].
+        + exists xm, xh, (I xm), yh. split; [destruct Hsg as [[? ?] | [? ?]]; unfold xs, xm in *; drive; reflexivity |].
+          repeat split; try lra; destruct (Hin_xm) as [A B]; Rlit_norm_all; lra.
+        + assert (Hn' : I xm * yl < 0) by lra.
+          exists xl, xm, yl, (I xm). split; [destruct Hsg as [[? ?] | [? ?]]; unfold xs, xm in *; drive; reflexivity |].
+          repeat split; try lra; destruct (Hin_xm) as [A B]; Rlit_norm_all; lra. }
+  destruct (Rlt_dec (xh - Rlit 1 (-1) * (xh - xl)) xs) as [Hhi1 | Hhi1].
+  { exists xm. split; [exact Hin_xm|]. split.
+      - intro Hc. destruct Hsg as [[? ?] | [? ?]]; unfold xs, xm in *; drive; reflexivity.
+      - intro Hc. destruct (Rle_dec 0 (I xm * yl)) as [Hp | Hn].
+        + exists xm, xh, (I xm), yh. split; [destruct Hsg as [[? ?] | [? ?]]; unfold xs, xm in *; drive; reflexivity |].
+          repeat split; try lra; destruct (Hin_xm) as [A B]; Rlit_norm_all; lra.
+        + assert (Hn' : I xm * yl < 0) by lra.
+          exists xl, xm, yl, (I xm). split; [destruct Hsg as [[? ?] | [? ?]]; unfold xs, xm in *; drive; reflexivity |].
+          repeat split; try lra; destruct (Hin_xm) as [A B]; Rlit_norm_all; lra. }
+  assert (Hin_xs : xl + Rlit 1 (-1) * (xh - xl) <= xs <= xh - Rlit 1 (-1) * (xh - xl)) by lra.
+  exists xs. split; [exact Hin_xs|]. split.
+      - intro Hc. destruct Hsg as [[? ?] | [? ?]]; unfold xs, xm in *; drive; reflexivity.
+      - intro Hc. destruct (Rle_dec 0 (I xs * yl)) as [Hp | Hn].
+        + exists xs, xh, (I xs), yh. split; [destruct Hsg as [[? ?] | [? ?]]; unfold xs, xm in *; drive; reflexivity |].
+          repeat split; try lra; destruct (Hin_xs) as [A B]; Rlit_norm_all; lra.
+        + assert (Hn' : I xs * yl < 0) by lra.
+          exists xl, xs, yl, (I xs). split; [destruct Hsg as [[? ?] | [? ?]]; unfold xs, xm in *; drive; reflexivity |].
+          repeat split; try lra; destruct (Hin_xs) as [A B]; Rlit_norm_all; lra.
+Qed.
+
 Lemma loop_good a b mi : forall fuel ni x xh xl y yh yl yp,
   (Z.max 0 (mi - ni) < Z.of_nat fuel)%Z ->
   a <= xl -> xl <= xh -> xh <= b -> xl <= x <= xh -> y = I x -> (tol < Rabs y -> yl * yh < 0) ->
@@ -129,102 +184,233 @@ Proof.
           assert (I xn <> 0) by (intro E0; rewrite E0, Rabs_R0 in Hbig; lra).
           destruct Hsg as [[? ?] | [? ?]]; nra.
         - apply IH; try exact Hfu'; lra. }
+      set (xm := (xl + xh) / Rlit 20 (-1)) in *.
+      assert (Hxm : xl <= xm <= xh) by (unfold xm; Rlit_norm; lra).
       destruct (Rlt_dec (Rabs (D x)) (Rlit 1 (-3))) as [Hflat | Hsteep].
-      * (* derivative too small: secant point *)
-        destruct (Hnext xs Hsec) as [Herr Hok].
+      { (* derivative too small: secant point, or the midpoint when that lies in an outer tenth of the bracket *)
+      destruct (Rlt_dec xs (xl + Rlit 1 (-1) * (xh - xl))) as [Hlo1 | Hlo1].
+      { destruct (Hnext xm Hxm) as [Herr Hok].
+        destruct (Hcall xm) as [Hc | Hc].
+        2:{ assert (E : root_loop self (VInt mi) (S fuel) (VInt ni) (VFloat x) (VFloat xh) (VFloat xl)
+                      (VFloat y) (VFloat yh) (VFloat yl) yp = VErr ValueError)
+              by (destruct Hsg as [[? ?] | [? ?]]; unfold xs, xm in *; try unfold xn in *; drive; reflexivity).
+            rewrite E. reflexivity. }
+        destruct (Hok Hc) as [Hpos Hneg].
+        destruct (Rle_dec 0 (I xm * yl)) as [Hp | Hn].
+        - assert (E : root_loop self (VInt mi) (S fuel) (VInt ni) (VFloat x) (VFloat xh) (VFloat xl)
+                      (VFloat y) (VFloat yh) (VFloat yl) yp
+                    = root_loop self (VInt mi) fuel (VInt (ni + 1)) (VFloat xm) (VFloat xh) (VFloat xm)
+                                  (VFloat (I xm)) (VFloat yh) (VFloat (I xm)) (VFloat (D x)))
+              by (destruct Hsg as [[? ?] | [? ?]]; unfold xs, xm in *; try unfold xn in *; drive; reflexivity).
+          rewrite E. exact (Hpos Hp).
+        - assert (Hn' : I xm * yl < 0) by lra.
+          assert (E : root_loop self (VInt mi) (S fuel) (VInt ni) (VFloat x) (VFloat xh) (VFloat xl)
+                      (VFloat y) (VFloat yh) (VFloat yl) yp
+                    = root_loop self (VInt mi) fuel (VInt (ni + 1)) (VFloat xm) (VFloat xm) (VFloat xl)
+                                  (VFloat (I xm)) (VFloat (I xm)) (VFloat yl) (VFloat (D x)))
+              by (destruct Hsg as [[? ?] | [? ?]]; unfold xs, xm in *; try unfold xn in *; drive; reflexivity).
+          rewrite E. exact (Hneg Hn'). }
+      destruct (Rlt_dec (xh - Rlit 1 (-1) * (xh - xl)) xs) as [Hhi1 | Hhi1].
+      { destruct (Hnext xm Hxm) as [Herr Hok].
+        destruct (Hcall xm) as [Hc | Hc].
+        2:{ assert (E : root_loop self (VInt mi) (S fuel) (VInt ni) (VFloat x) (VFloat xh) (VFloat xl)
+                      (VFloat y) (VFloat yh) (VFloat yl) yp = VErr ValueError)
+              by (destruct Hsg as [[? ?] | [? ?]]; unfold xs, xm in *; try unfold xn in *; drive; reflexivity).
+            rewrite E. reflexivity. }
+        destruct (Hok Hc) as [Hpos Hneg].
+        destruct (Rle_dec 0 (I xm * yl)) as [Hp | Hn].
+        - assert (E : root_loop self (VInt mi) (S fuel) (VInt ni) (VFloat x) (VFloat xh) (VFloat xl)
+                      (VFloat y) (VFloat yh) (VFloat yl) yp
+                    = root_loop self (VInt mi) fuel (VInt (ni + 1)) (VFloat xm) (VFloat xh) (VFloat xm)
+                                  (VFloat (I xm)) (VFloat yh) (VFloat (I xm)) (VFloat (D x)))
+              by (destruct Hsg as [[? ?] | [? ?]]; unfold xs, xm in *; try unfold xn in *; drive; reflexivity).
+          rewrite E. exact (Hpos Hp).
+        - assert (Hn' : I xm * yl < 0) by lra.
+          assert (E : root_loop self (VInt mi) (S fuel) (VInt ni) (VFloat x) (VFloat xh) (VFloat xl)
+                      (VFloat y) (VFloat yh) (VFloat yl) yp
+                    = root_loop self (VInt mi) fuel (VInt (ni + 1)) (VFloat xm) (VFloat xm) (VFloat xl)
+                                  (VFloat (I xm)) (VFloat (I xm)) (VFloat yl) (VFloat (D x)))
+              by (destruct Hsg as [[? ?] | [? ?]]; unfold xs, xm in *; try unfold xn in *; drive; reflexivity).
+          rewrite E. exact (Hneg Hn'). }
+      { destruct (Hnext xs Hsec) as [Herr Hok].
         destruct (Hcall xs) as [Hc | Hc].
         2:{ assert (E : root_loop self (VInt mi) (S fuel) (VInt ni) (VFloat x) (VFloat xh) (VFloat xl)
                       (VFloat y) (VFloat yh) (VFloat yl) yp = VErr ValueError)
-              by (destruct Hsg as [[? ?] | [? ?]]; unfold xs in *; drive; reflexivity).
+              by (destruct Hsg as [[? ?] | [? ?]]; unfold xs, xm in *; try unfold xn in *; drive; reflexivity).
             rewrite E. reflexivity. }
         destruct (Hok Hc) as [Hpos Hneg].
         destruct (Rle_dec 0 (I xs * yl)) as [Hp | Hn].
-        -- assert (E : root_loop self (VInt mi) (S fuel) (VInt ni) (VFloat x) (VFloat xh) (VFloat xl)
+        - assert (E : root_loop self (VInt mi) (S fuel) (VInt ni) (VFloat x) (VFloat xh) (VFloat xl)
                       (VFloat y) (VFloat yh) (VFloat yl) yp
                     = root_loop self (VInt mi) fuel (VInt (ni + 1)) (VFloat xs) (VFloat xh) (VFloat xs)
                                   (VFloat (I xs)) (VFloat yh) (VFloat (I xs)) (VFloat (D x)))
-              by (destruct Hsg as [[? ?] | [? ?]]; unfold xs in *; drive; reflexivity).
-           rewrite E. exact (Hpos Hp).
-        -- assert (Hn' : I xs * yl < 0) by lra.
-           assert (E : root_loop self (VInt mi) (S fuel) (VInt ni) (VFloat x) (VFloat xh) (VFloat xl)
+              by (destruct Hsg as [[? ?] | [? ?]]; unfold xs, xm in *; try unfold xn in *; drive; reflexivity).
+          rewrite E. exact (Hpos Hp).
+        - assert (Hn' : I xs * yl < 0) by lra.
+          assert (E : root_loop self (VInt mi) (S fuel) (VInt ni) (VFloat x) (VFloat xh) (VFloat xl)
                       (VFloat y) (VFloat yh) (VFloat yl) yp
                     = root_loop self (VInt mi) fuel (VInt (ni + 1)) (VFloat xs) (VFloat xs) (VFloat xl)
                                   (VFloat (I xs)) (VFloat (I xs)) (VFloat yl) (VFloat (D x)))
-              by (destruct Hsg as [[? ?] | [? ?]]; unfold xs in *; drive; reflexivity).
-           rewrite E. exact (Hneg Hn').
-      * (* Newton step *)
-        assert (Hnz : D x <> 0).
-        { intro E0. apply Hsteep. rewrite E0, Rabs_R0. Rlit_norm. lra. }
-        set (xn := x - y / D x) in *.
-        destruct (Rlt_dec xn xl) as [Hout1 | Hin1].
-        { (* left of the bracket: secant point *)
-          rename Hsec into Hxs.
-          destruct (Hnext xs Hxs) as [Herr Hok].
+              by (destruct Hsg as [[? ?] | [? ?]]; unfold xs, xm in *; try unfold xn in *; drive; reflexivity).
+          rewrite E. exact (Hneg Hn'). } }
+      (* Newton step *)
+      assert (Hnz : D x <> 0).
+      { intro E0. apply Hsteep. rewrite E0, Rabs_R0. Rlit_norm. lra. }
+      set (xn := x - y / D x) in *.
+      destruct (Rlt_dec xn xl) as [Hout1 | Hin1].
+      { destruct (Rlt_dec xs (xl + Rlit 1 (-1) * (xh - xl))) as [Hlo1 | Hlo1].
+      { destruct (Hnext xm Hxm) as [Herr Hok].
+        destruct (Hcall xm) as [Hc | Hc].
+        2:{ assert (E : root_loop self (VInt mi) (S fuel) (VInt ni) (VFloat x) (VFloat xh) (VFloat xl)
+                      (VFloat y) (VFloat yh) (VFloat yl) yp = VErr ValueError)
+              by (destruct Hsg as [[? ?] | [? ?]]; unfold xs, xm in *; try unfold xn in *; drive; reflexivity).
+            rewrite E. reflexivity. }
+        destruct (Hok Hc) as [Hpos Hneg].
+        destruct (Rle_dec 0 (I xm * yl)) as [Hp | Hn].
+        - assert (E : root_loop self (VInt mi) (S fuel) (VInt ni) (VFloat x) (VFloat xh) (VFloat xl)
+                      (VFloat y) (VFloat yh) (VFloat yl) yp
+                    = root_loop self (VInt mi) fuel (VInt (ni + 1)) (VFloat xm) (VFloat xh) (VFloat xm)
+                                  (VFloat (I xm)) (VFloat yh) (VFloat (I xm)) (VFloat (D x)))
+              by (destruct Hsg as [[? ?] | [? ?]]; unfold xs, xm in *; try unfold xn in *; drive; reflexivity).
+          rewrite E. exact (Hpos Hp).
+        - assert (Hn' : I xm * yl < 0) by lra.
+          assert (E : root_loop self (VInt mi) (S fuel) (VInt ni) (VFloat x) (VFloat xh) (VFloat xl)
+                      (VFloat y) (VFloat yh) (VFloat yl) yp
+                    = root_loop self (VInt mi) fuel (VInt (ni + 1)) (VFloat xm) (VFloat xm) (VFloat xl)
+                                  (VFloat (I xm)) (VFloat (I xm)) (VFloat yl) (VFloat (D x)))
+              by (destruct Hsg as [[? ?] | [? ?]]; unfold xs, xm in *; try unfold xn in *; drive; reflexivity).
+          rewrite E. exact (Hneg Hn'). }
+      destruct (Rlt_dec (xh - Rlit 1 (-1) * (xh - xl)) xs) as [Hhi1 | Hhi1].
+      { destruct (Hnext xm Hxm) as [Herr Hok].
+        destruct (Hcall xm) as [Hc | Hc].
+        2:{ assert (E : root_loop self (VInt mi) (S fuel) (VInt ni) (VFloat x) (VFloat xh) (VFloat xl)
+                      (VFloat y) (VFloat yh) (VFloat yl) yp = VErr ValueError)
+              by (destruct Hsg as [[? ?] | [? ?]]; unfold xs, xm in *; try unfold xn in *; drive; reflexivity).
+            rewrite E. reflexivity. }
+        destruct (Hok Hc) as [Hpos Hneg].
+        destruct (Rle_dec 0 (I xm * yl)) as [Hp | Hn].
+        - assert (E : root_loop self (VInt mi) (S fuel) (VInt ni) (VFloat x) (VFloat xh) (VFloat xl)
+                      (VFloat y) (VFloat yh) (VFloat yl) yp
+                    = root_loop self (VInt mi) fuel (VInt (ni + 1)) (VFloat xm) (VFloat xh) (VFloat xm)
+                                  (VFloat (I xm)) (VFloat yh) (VFloat (I xm)) (VFloat (D x)))
+              by (destruct Hsg as [[? ?] | [? ?]]; unfold xs, xm in *; try unfold xn in *; drive; reflexivity).
+          rewrite E. exact (Hpos Hp).
+        - assert (Hn' : I xm * yl < 0) by lra.
+          assert (E : root_loop self (VInt mi) (S fuel) (VInt ni) (VFloat x) (VFloat xh) (VFloat xl)
+                      (VFloat y) (VFloat yh) (VFloat yl) yp
+                    = root_loop self (VInt mi) fuel (VInt (ni + 1)) (VFloat xm) (VFloat xm) (VFloat xl)
+                                  (VFloat (I xm)) (VFloat (I xm)) (VFloat yl) (VFloat (D x)))
+              by (destruct Hsg as [[? ?] | [? ?]]; unfold xs, xm in *; try unfold xn in *; drive; reflexivity).
+          rewrite E. exact (Hneg Hn'). }
+      { destruct (Hnext xs Hsec) as [Herr Hok].
         destruct (Hcall xs) as [Hc | Hc].
         2:{ assert (E : root_loop self (VInt mi) (S fuel) (VInt ni) (VFloat x) (VFloat xh) (VFloat xl)
                       (VFloat y) (VFloat yh) (VFloat yl) yp = VErr ValueError)
-              by (destruct Hsg as [[? ?] | [? ?]]; unfold xs, xn in *; drive; reflexivity).
+              by (destruct Hsg as [[? ?] | [? ?]]; unfold xs, xm in *; try unfold xn in *; drive; reflexivity).
             rewrite E. reflexivity. }
         destruct (Hok Hc) as [Hpos Hneg].
         destruct (Rle_dec 0 (I xs * yl)) as [Hp | Hn].
-        -- assert (E : root_loop self (VInt mi) (S fuel) (VInt ni) (VFloat x) (VFloat xh) (VFloat xl)
+        - assert (E : root_loop self (VInt mi) (S fuel) (VInt ni) (VFloat x) (VFloat xh) (VFloat xl)
                       (VFloat y) (VFloat yh) (VFloat yl) yp
                     = root_loop self (VInt mi) fuel (VInt (ni + 1)) (VFloat xs) (VFloat xh) (VFloat xs)
                                   (VFloat (I xs)) (VFloat yh) (VFloat (I xs)) (VFloat (D x)))
-              by (destruct Hsg as [[? ?] | [? ?]]; unfold xs, xn in *; drive; reflexivity).
-           rewrite E. exact (Hpos Hp).
-        -- assert (Hn' : I xs * yl < 0) by lra.
-           assert (E : root_loop self (VInt mi) (S fuel) (VInt ni) (VFloat x) (VFloat xh) (VFloat xl)
+              by (destruct Hsg as [[? ?] | [? ?]]; unfold xs, xm in *; try unfold xn in *; drive; reflexivity).
+          rewrite E. exact (Hpos Hp).
+        - assert (Hn' : I xs * yl < 0) by lra.
+          assert (E : root_loop self (VInt mi) (S fuel) (VInt ni) (VFloat x) (VFloat xh) (VFloat xl)
                       (VFloat y) (VFloat yh) (VFloat yl) yp
                     = root_loop self (VInt mi) fuel (VInt (ni + 1)) (VFloat xs) (VFloat xs) (VFloat xl)
                                   (VFloat (I xs)) (VFloat (I xs)) (VFloat yl) (VFloat (D x)))
-              by (destruct Hsg as [[? ?] | [? ?]]; unfold xs, xn in *; drive; reflexivity).
-           rewrite E. exact (Hneg Hn'). }
-        destruct (Rlt_dec xh xn) as [Hout2 | Hin2].
-        { rename Hsec into Hxs.
-          destruct (Hnext xs Hxs) as [Herr Hok].
+              by (destruct Hsg as [[? ?] | [? ?]]; unfold xs, xm in *; try unfold xn in *; drive; reflexivity).
+          rewrite E. exact (Hneg Hn'). } }
+      destruct (Rlt_dec xh xn) as [Hout2 | Hin2].
+      { destruct (Rlt_dec xs (xl + Rlit 1 (-1) * (xh - xl))) as [Hlo1 | Hlo1].
+      { destruct (Hnext xm Hxm) as [Herr Hok].
+        destruct (Hcall xm) as [Hc | Hc].
+        2:{ assert (E : root_loop self (VInt mi) (S fuel) (VInt ni) (VFloat x) (VFloat xh) (VFloat xl)
+                      (VFloat y) (VFloat yh) (VFloat yl) yp = VErr ValueError)
+              by (destruct Hsg as [[? ?] | [? ?]]; unfold xs, xm in *; try unfold xn in *; drive; reflexivity).
+            rewrite E. reflexivity. }
+        destruct (Hok Hc) as [Hpos Hneg].
+        destruct (Rle_dec 0 (I xm * yl)) as [Hp | Hn].
+        - assert (E : root_loop self (VInt mi) (S fuel) (VInt ni) (VFloat x) (VFloat xh) (VFloat xl)
+                      (VFloat y) (VFloat yh) (VFloat yl) yp
+                    = root_loop self (VInt mi) fuel (VInt (ni + 1)) (VFloat xm) (VFloat xh) (VFloat xm)
+                                  (VFloat (I xm)) (VFloat yh) (VFloat (I xm)) (VFloat (D x)))
+              by (destruct Hsg as [[? ?] | [? ?]]; unfold xs, xm in *; try unfold xn in *; drive; reflexivity).
+          rewrite E. exact (Hpos Hp).
+        - assert (Hn' : I xm * yl < 0) by lra.
+          assert (E : root_loop self (VInt mi) (S fuel) (VInt ni) (VFloat x) (VFloat xh) (VFloat xl)
+                      (VFloat y) (VFloat yh) (VFloat yl) yp
+                    = root_loop self (VInt mi) fuel (VInt (ni + 1)) (VFloat xm) (VFloat xm) (VFloat xl)
+                                  (VFloat (I xm)) (VFloat (I xm)) (VFloat yl) (VFloat (D x)))
+              by (destruct Hsg as [[? ?] | [? ?]]; unfold xs, xm in *; try unfold xn in *; drive; reflexivity).
+          rewrite E. exact (Hneg Hn'). }
+      destruct (Rlt_dec (xh - Rlit 1 (-1) * (xh - xl)) xs) as [Hhi1 | Hhi1].
+      { destruct (Hnext xm Hxm) as [Herr Hok].
+        destruct (Hcall xm) as [Hc | Hc].
+        2:{ assert (E : root_loop self (VInt mi) (S fuel) (VInt ni) (VFloat x) (VFloat xh) (VFloat xl)
+                      (VFloat y) (VFloat yh) (VFloat yl) yp = VErr ValueError)
+              by (destruct Hsg as [[? ?] | [? ?]]; unfold xs, xm in *; try unfold xn in *; drive; reflexivity).
+            rewrite E. reflexivity. }
+        destruct (Hok Hc) as [Hpos Hneg].
+        destruct (Rle_dec 0 (I xm * yl)) as [Hp | Hn].
+        - assert (E : root_loop self (VInt mi) (S fuel) (VInt ni) (VFloat x) (VFloat xh) (VFloat xl)
+                      (VFloat y) (VFloat yh) (VFloat yl) yp
+                    = root_loop self (VInt mi) fuel (VInt (ni + 1)) (VFloat xm) (VFloat xh) (VFloat xm)
+                                  (VFloat (I xm)) (VFloat yh) (VFloat (I xm)) (VFloat (D x)))
+              by (destruct Hsg as [[? ?] | [? ?]]; unfold xs, xm in *; try unfold xn in *; drive; reflexivity).
+          rewrite E. exact (Hpos Hp).
+        - assert (Hn' : I xm * yl < 0) by lra.
+          assert (E : root_loop self (VInt mi) (S fuel) (VInt ni) (VFloat x) (VFloat xh) (VFloat xl)
+                      (VFloat y) (VFloat yh) (VFloat yl) yp
+                    = root_loop self (VInt mi) fuel (VInt (ni + 1)) (VFloat xm) (VFloat xm) (VFloat xl)
+                                  (VFloat (I xm)) (VFloat (I xm)) (VFloat yl) (VFloat (D x)))
+              by (destruct Hsg as [[? ?] | [? ?]]; unfold xs, xm in *; try unfold xn in *; drive; reflexivity).
+          rewrite E. exact (Hneg Hn'). }
+      { destruct (Hnext xs Hsec) as [Herr Hok].
         destruct (Hcall xs) as [Hc | Hc].
         2:{ assert (E : root_loop self (VInt mi) (S fuel) (VInt ni) (VFloat x) (VFloat xh) (VFloat xl)
                       (VFloat y) (VFloat yh) (VFloat yl) yp = VErr ValueError)
-              by (destruct Hsg as [[? ?] | [? ?]]; unfold xs, xn in *; drive; reflexivity).
+              by (destruct Hsg as [[? ?] | [? ?]]; unfold xs, xm in *; try unfold xn in *; drive; reflexivity).
             rewrite E. reflexivity. }
         destruct (Hok Hc) as [Hpos Hneg].
         destruct (Rle_dec 0 (I xs * yl)) as [Hp | Hn].
-        -- assert (E : root_loop self (VInt mi) (S fuel) (VInt ni) (VFloat x) (VFloat xh) (VFloat xl)
+        - assert (E : root_loop self (VInt mi) (S fuel) (VInt ni) (VFloat x) (VFloat xh) (VFloat xl)
                       (VFloat y) (VFloat yh) (VFloat yl) yp
                     = root_loop self (VInt mi) fuel (VInt (ni + 1)) (VFloat xs) (VFloat xh) (VFloat xs)
                                   (VFloat (I xs)) (VFloat yh) (VFloat (I xs)) (VFloat (D x)))
-              by (destruct Hsg as [[? ?] | [? ?]]; unfold xs, xn in *; drive; reflexivity).
-           rewrite E. exact (Hpos Hp).
-        -- assert (Hn' : I xs * yl < 0) by lra.
-           assert (E : root_loop self (VInt mi) (S fuel) (VInt ni) (VFloat x) (VFloat xh) (VFloat xl)
+              by (destruct Hsg as [[? ?] | [? ?]]; unfold xs, xm in *; try unfold xn in *; drive; reflexivity).
+          rewrite E. exact (Hpos Hp).
+        - assert (Hn' : I xs * yl < 0) by lra.
+          assert (E : root_loop self (VInt mi) (S fuel) (VInt ni) (VFloat x) (VFloat xh) (VFloat xl)
                       (VFloat y) (VFloat yh) (VFloat yl) yp
                     = root_loop self (VInt mi) fuel (VInt (ni + 1)) (VFloat xs) (VFloat xs) (VFloat xl)
                                   (VFloat (I xs)) (VFloat (I xs)) (VFloat yl) (VFloat (D x)))
-              by (destruct Hsg as [[? ?] | [? ?]]; unfold xs, xn in *; drive; reflexivity).
-           rewrite E. exact (Hneg Hn'). }
-        assert (Hxn : xl <= xn <= xh) by lra.
-        destruct (Hnext xn Hxn) as [Herr Hok].
+              by (destruct Hsg as [[? ?] | [? ?]]; unfold xs, xm in *; try unfold xn in *; drive; reflexivity).
+          rewrite E. exact (Hneg Hn'). } }
+      assert (Hxn : xl <= xn <= xh) by lra.
+      { destruct (Hnext xn Hxn) as [Herr Hok].
         destruct (Hcall xn) as [Hc | Hc].
         2:{ assert (E : root_loop self (VInt mi) (S fuel) (VInt ni) (VFloat x) (VFloat xh) (VFloat xl)
                       (VFloat y) (VFloat yh) (VFloat yl) yp = VErr ValueError)
-              by (destruct Hsg as [[? ?] | [? ?]]; unfold xs, xn in *; drive; reflexivity).
+              by (destruct Hsg as [[? ?] | [? ?]]; unfold xs, xm in *; try unfold xn in *; drive; reflexivity).
             rewrite E. reflexivity. }
         destruct (Hok Hc) as [Hpos Hneg].
         destruct (Rle_dec 0 (I xn * yl)) as [Hp | Hn].
-        -- assert (E : root_loop self (VInt mi) (S fuel) (VInt ni) (VFloat x) (VFloat xh) (VFloat xl)
+        - assert (E : root_loop self (VInt mi) (S fuel) (VInt ni) (VFloat x) (VFloat xh) (VFloat xl)
                       (VFloat y) (VFloat yh) (VFloat yl) yp
                     = root_loop self (VInt mi) fuel (VInt (ni + 1)) (VFloat xn) (VFloat xh) (VFloat xn)
                                   (VFloat (I xn)) (VFloat yh) (VFloat (I xn)) (VFloat (D x)))
-              by (destruct Hsg as [[? ?] | [? ?]]; unfold xs, xn in *; drive; reflexivity).
-           rewrite E. exact (Hpos Hp).
-        -- assert (Hn' : I xn * yl < 0) by lra.
-           assert (E : root_loop self (VInt mi) (S fuel) (VInt ni) (VFloat x) (VFloat xh) (VFloat xl)
+              by (destruct Hsg as [[? ?] | [? ?]]; unfold xs, xm in *; try unfold xn in *; drive; reflexivity).
+          rewrite E. exact (Hpos Hp).
+        - assert (Hn' : I xn * yl < 0) by lra.
+          assert (E : root_loop self (VInt mi) (S fuel) (VInt ni) (VFloat x) (VFloat xh) (VFloat xl)
                       (VFloat y) (VFloat yh) (VFloat yl) yp
                     = root_loop self (VInt mi) fuel (VInt (ni + 1)) (VFloat xn) (VFloat xn) (VFloat xl)
                                   (VFloat (I xn)) (VFloat (I xn)) (VFloat yl) (VFloat (D x)))
-              by (destruct Hsg as [[? ?] | [? ?]]; unfold xs, xn in *; drive; reflexivity).
-           rewrite E. exact (Hneg Hn').
+              by (destruct Hsg as [[? ?] | [? ?]]; unfold xs, xm in *; try unfold xn in *; drive; reflexivity).
+          rewrite E. exact (Hneg Hn'). }
 Qed.
 
 (* ---- the whole method: limits in any order, in or out of the table ---- *)
